@@ -467,6 +467,10 @@ func (setSelf *SetForInterfaceDef) Get(key interface{}) interface{} {
 
 // Set Set items to the Set
 func (setSelf *SetForInterfaceDef) Set(key interface{}, value interface{}) {
+	if *setSelf == nil {
+		// a Set over a nil map (e.g. the empty result of Intersection) is still writable
+		*setSelf = SetForInterfaceDef{}
+	}
 	(*setSelf)[key] = value
 
 	// return setSelf
